@@ -1247,11 +1247,12 @@ class Result:
             CobaContext.logger.log(f"No interactions matched the given filter.")
 
         to_keep = list(interactions.groupby(3,select=None))
-        env,lrn,val = zip(*to_keep) if to_keep else ([],[],[])
+        #there is one key per kept evaluation so we count the distinct ids
+        env,lrn,val = map(set,zip(*to_keep)) if to_keep else (set(),set(),set())
 
-        if len(env) != len(environments): environments = environments.where(environment_id=set(env))
-        if len(lrn) != len(learners)    : learners     = learners    .where(learner_id    =set(lrn))
-        if len(val) != len(evaluators)  : evaluators   = evaluators  .where(evaluator_id  =set(val))
+        if len(env) != len(environments): environments = environments.where(environment_id=env)
+        if len(lrn) != len(learners)    : learners     = learners    .where(learner_id    =lrn)
+        if len(val) != len(evaluators)  : evaluators   = evaluators  .where(evaluator_id  =val)
 
         return Result(environments,learners,evaluators,interactions)
 
